@@ -4,6 +4,7 @@ package main
 // and canonical formatting of what the implementation returns.
 
 import (
+	"net/url"
 	"time"
 	"encoding/hex"
 	"fmt"
@@ -231,9 +232,27 @@ func namedStruct(idx int64) any {
 		// the same methods on the elements of containers
 		return map[string]any{"prices": []mPrice{{1, "a"}, {2, "b"}}, "byName": map[string]mPrice{"x": {3, "c"}}, "langs": []mLang{"de", "fr"}, "levels": []mLevel{1, 2},
 			"errs": []error{mErr{1, "e1"}}, "strs": []fmt.Stringer{mPrice{4, "d"}, mLang("it")}}
+	case 21:
+		// nil pointers whose types carry methods a converter might call (String with value and pointer receivers, Error, marshalers): nil, not a call
+		return map[string]any{"d": (*mDoc)(nil), "p": (*mPrice)(nil), "t": (*time.Time)(nil), "u": (*url.URL)(nil), "e": (*mErr)(nil), "ok": 1}
+	case 22:
+		// the same as optional fields of a struct, beside a field that is set
+		return mOpt{Name: "n", Price: &mPrice{Amount: 5, Cur: "USD"}}
+	case 23:
+		// ... and as typed nils inside interface-typed containers
+		return []any{(*mDoc)(nil), (*time.Time)(nil), fmt.Stringer((*mDoc)(nil)), error((*mErr)(nil)), 7}
 	}
 	type Rec struct{}
 	return Rec{}
+}
+
+type mOpt struct {
+	Deleted *time.Time
+	Site    *url.URL
+	Doc     *mDoc
+	Price   *mPrice
+	Err     *mErr
+	Name    string
 }
 
 // types that carry methods a converter might be tempted to call (fmt.Stringer, error, json / text marshalers)
